@@ -12,14 +12,20 @@
 (* Contents are abstracted to a version number per keyspace: what matters here *)
 (* is whether the tracker can ever say "nothing changed" while the local node  *)
 (* lacks something (C01's poller fixpoint, per keyspace).                      *)
-(* StampLast / RememberPolled / RememberAll are NOT the code: each is a        *)
-(* plausible variation that TLC shows to be unsound.                           *)
+(* begin_keyspace_sync can also give up: its progress watcher sees no progress *)
+(* for KEYSPACE_SYNC_TIMEOUT, the call returns an error, and the modification  *)
+(* half (a spawned task) is "left to run": what it fetched may still land      *)
+(* later, or be refused by the storage (`late`).  A sync given up is not       *)
+(* remembered.                                                                 *)
+(* StampLast / RememberPolled / RememberAll / RememberTimedOut are NOT the     *)
+(* code: each is a plausible variation that TLC shows to be unsound.           *)
 EXTENDS Naturals, FiniteSets, TLC
 
 CONSTANTS Keyspaces, MaxMut, MaxRounds,
           StampLast,        \* the handler serializes first and reads the stamp afterwards
           RememberPolled,   \* the tracker remembers the stamp of the poll instead of the one that came with the state
-          RememberAll       \* one successful sync marks every polled keyspace as synchronised
+          RememberAll,      \* one successful sync marks every polled keyspace as synchronised
+          RememberTimedOut  \* a sync that was given up (no progress within the timeout) is remembered like a finished one
 
 VARIABLES chg,     \* peer: keyspace -> change stamp (0 = the keyspace does not exist yet)
           ver,     \* peer: keyspace -> content version
@@ -30,8 +36,9 @@ VARIABLES chg,     \* peer: keyspace -> change stamp (0 = the keyspace does not 
           todo,    \* keyspaces of this round whose state has still to be fetched
           got,     \* keyspace -> [lu, st] fetched in this round
           half,    \* keyspace -> stamp read, state not yet serialized (the handler between its two questions)
+          late,    \* keyspace -> content version a modification half that was left to run may still write (0 = none)
           muts, rounds
-vars == <<chg, ver, trk, seen, phase, polled, todo, got, half, muts, rounds>>
+vars == <<chg, ver, trk, seen, phase, polled, todo, got, half, late, muts, rounds>>
 
 None == [lu |-> 0, st |-> 0]
 Init ==
@@ -39,6 +46,7 @@ Init ==
   /\ trk = [k \in Keyspaces |-> 0] /\ seen = [k \in Keyspaces |-> 0]
   /\ phase = "idle" /\ polled = [k \in Keyspaces |-> 0]
   /\ todo = {} /\ got = [k \in Keyspaces |-> None] /\ half = [k \in Keyspaces |-> 0]
+  /\ late = [k \in Keyspaces |-> 0]
   /\ muts = 0 /\ rounds = 0
 
 \* a request handled by the peer's keyspace actor: it changes the content and bumps the stamp, or (a bulk request that
@@ -48,7 +56,7 @@ PeerMutate(k, changes) ==
   /\ muts' = muts + 1
   /\ chg' = [chg EXCEPT ![k] = @ + 1]
   /\ ver' = IF changes THEN [ver EXCEPT ![k] = @ + 1] ELSE ver
-  /\ UNCHANGED <<trk, seen, phase, polled, todo, got, half, rounds>>
+  /\ UNCHANGED <<trk, seen, phase, polled, todo, got, half, late, rounds>>
 
 \* check_node_changes: poll_keyspace + KeyspaceTracker::get_diff
 Poll ==
@@ -58,45 +66,59 @@ Poll ==
   /\ todo' = { k \in Keyspaces : chg[k] # 0 /\ trk[k] # chg[k] }
   /\ got' = [k \in Keyspaces |-> None] /\ half' = [k \in Keyspaces |-> 0]
   /\ phase' = "polled"
-  /\ UNCHANGED <<chg, ver, trk, seen, muts>>
+  /\ UNCHANGED <<chg, ver, trk, seen, late, muts>>
 
 \* the peer's GetState handler, first question (LastUpdated - or, in the unsound variation, Serialize)
 ReadStamp(k) ==
   /\ phase = "polled" /\ k \in todo /\ half[k] = 0 /\ got[k] = None
   /\ half' = [half EXCEPT ![k] = IF StampLast THEN ver[k] + 1 ELSE chg[k]]       \* (+1: distinguishes "taken" from "not yet")
-  /\ UNCHANGED <<chg, ver, trk, seen, phase, polled, todo, got, muts, rounds>>
+  /\ UNCHANGED <<chg, ver, trk, seen, phase, polled, todo, got, late, muts, rounds>>
 \* second question; get_keyspace_diff returns (stamp, state)
 TakeState(k) ==
   /\ phase = "polled" /\ k \in todo /\ half[k] # 0
   /\ got' = [got EXCEPT ![k] = IF StampLast THEN [lu |-> chg[k], st |-> half[k] - 1] ELSE [lu |-> half[k], st |-> ver[k]]]
   /\ todo' = todo \ {k}
   /\ half' = [half EXCEPT ![k] = 0]
-  /\ UNCHANGED <<chg, ver, trk, seen, phase, polled, muts, rounds>>
+  /\ UNCHANGED <<chg, ver, trk, seen, phase, polled, late, muts, rounds>>
 \* all diff tasks have been awaited
 StartSync ==
   /\ phase = "polled" /\ todo = {}
   /\ phase' = "syncing"
-  /\ UNCHANGED <<chg, ver, trk, seen, polled, todo, got, half, muts, rounds>>
+  /\ UNCHANGED <<chg, ver, trk, seen, polled, todo, got, half, late, muts, rounds>>
 
-\* begin_keyspace_sync of one keyspace: it repairs up to the state that was fetched, and is remembered - or it fails
-Sync(k, ok) ==
+\* begin_keyspace_sync of one keyspace: "ok" = it repairs up to the state that was fetched, and is remembered; "fail" = a half
+\* failed; "timeout" = the progress watcher gave up, the call returns an error and the modification half is left to run
+Sync(k, out) ==
   /\ phase = "syncing" /\ got[k] # None
   /\ got' = [got EXCEPT ![k] = None]
-  /\ seen' = IF ok /\ got[k].st > seen[k] THEN [seen EXCEPT ![k] = got[k].st] ELSE seen
-  /\ trk' = IF ~ok THEN trk
+  /\ seen' = IF out = "ok" /\ got[k].st > seen[k] THEN [seen EXCEPT ![k] = got[k].st] ELSE seen
+  /\ late' = IF out = "timeout" /\ got[k].st > late[k] THEN [late EXCEPT ![k] = got[k].st] ELSE late
+  /\ trk' = IF out = "fail" \/ (out = "timeout" /\ ~RememberTimedOut) THEN trk
             ELSE IF RememberAll THEN [j \in Keyspaces |-> IF polled[j] # 0 THEN polled[j] ELSE trk[j]]
             ELSE [trk EXCEPT ![k] = IF RememberPolled THEN polled[k] ELSE got[k].lu]
   /\ UNCHANGED <<chg, ver, phase, polled, todo, half, muts, rounds>>
+\* the task that was left to run gets its write through after all (last writer wins: nothing newer is undone) ...
+LateLand(k) ==
+  /\ late[k] # 0
+  /\ seen' = IF late[k] > seen[k] THEN [seen EXCEPT ![k] = late[k]] ELSE seen
+  /\ late' = [late EXCEPT ![k] = 0]
+  /\ UNCHANGED <<chg, ver, trk, phase, polled, todo, got, half, muts, rounds>>
+\* ... or the storage refuses it / the fetch behind it fails
+LateDrop(k) ==
+  /\ late[k] # 0
+  /\ late' = [late EXCEPT ![k] = 0]
+  /\ UNCHANGED <<chg, ver, trk, seen, phase, polled, todo, got, half, muts, rounds>>
 EndRound ==
   /\ phase = "syncing" /\ \A k \in Keyspaces : got[k] = None
   /\ phase' = "idle"
-  /\ UNCHANGED <<chg, ver, trk, seen, polled, todo, got, half, muts, rounds>>
+  /\ UNCHANGED <<chg, ver, trk, seen, polled, todo, got, half, late, muts, rounds>>
 
 Next ==
   \/ \E k \in Keyspaces, c \in BOOLEAN : PeerMutate(k, c)
   \/ Poll \/ StartSync \/ EndRound
   \/ \E k \in Keyspaces : ReadStamp(k) \/ TakeState(k)
-  \/ \E k \in Keyspaces, ok \in BOOLEAN : Sync(k, ok)
+  \/ \E k \in Keyspaces, out \in {"ok", "fail", "timeout"} : Sync(k, out)
+  \/ \E k \in Keyspaces : LateLand(k) \/ LateDrop(k)
 Spec == Init /\ [][Next]_vars
 
 ----------------------------------------------------------------------------
